@@ -25,6 +25,7 @@ fn sq_index() {
     kani::assume(v < 64);
     let t = Square::from(v);
     assert!(t.rank < 8 && t.file < 8 && t.rank * 8 + t.file == v);
+    kani::cover!(true, "harness end reachable");
 }
 
 /// LEDGER sq_step: adding a direction moves one step in rank/file (wrapping u8 arithmetic off the board edge)
@@ -39,4 +40,5 @@ fn sq_step() {
     assert!(e.rank == s.rank && e.file == s.file + 1);
     let w = s + Direction::West;
     assert!(w.rank == s.rank && w.file == s.file.wrapping_sub(1));
+    kani::cover!(true, "harness end reachable");
 }
